@@ -174,7 +174,7 @@ package subscribe
 // grpc codes: 3 InvalidArgument, 5 NotFound, 7 PermissionDenied, 16 Unauthenticated.
 //@ func (*Server).Subscribe
 //@   props C07 C04 C05 C12
-//@   requires s != nil && s.c != nil && s.m != nil && stream != nil && SyncRespWf() && !tdelSeen && !aclFailed && !registered
+//@   requires s != nil && s.c != nil && s.m != nil && s.m.tree != nil && TrieWf() && stream != nil && SyncRespWf() && !tdelSeen && !aclFailed && !registered
 //@   modifies *
 //@   ensures [unauthenticated-before-anything C07] aclFailed ==> res0 != nil && errcode(res0) == 16 && recvs == old(recvs) && sends == old(sends) && spawns() == old(spawns())
 //@   ensures [denied-before-any-goroutine C07] aclChecks == old(aclChecks) + 1 && !lastVerdict ==> res0 != nil && errcode(res0) == 7
